@@ -15,8 +15,6 @@ NoTree == [main |-> <<>>, drop |-> <<>>, mshape |-> "both", dshape |-> "both"]
 Init == l = 1 /\ tree = NoTree /\ faults = NoFaults(NoTree) /\ pos = 0 /\ failed = FALSE /\ diverged = FALSE
 IsEvent(e) == l <= Len(Tr) /\ Tr[l].e = e /\ l' = l + 1
 ShapeName(c) == CASE c = "b" -> "both" [] c = "n" -> "nogroup" [] OTHER -> "section"
-MShape(s) == CASE s \in {"bb", "bn", "bs"} -> "both" [] s \in {"nb", "nn", "ns"} -> "nogroup" [] OTHER -> "section"
-DShape(s) == CASE s \in {"bb", "nb", "sb"} -> "both" [] s \in {"bn", "nn", "sn"} -> "nogroup" [] OTHER -> "section"
 Seq2Set(s) == {s[i] : i \in 1..Len(s)}
 
 TBegin == /\ IsEvent("begin")
